@@ -200,6 +200,71 @@ def _f64_ok(op, draw):
     return True
 
 
+def _mutated_arguments(op, dim, seed, res):
+    """(f) an argument *object* (matrix mapping, array of angles / factors / velocities) that the caller changes in place
+    between two calls: the second call computes with the new content, exactly as a call with a fresh object of that
+    content does (nothing may be remembered by the identity of an argument)"""
+    import numpy
+
+    from .. import backends as B
+
+    kinds = [k for k in op.args if k in ("mat2", "mat3", "mat4", "angle", "factor", "beta", "gamma")]
+    if not kinds or any(k == "vec" for k in op.args):
+        return
+    r = gen.rng(seed, "C02mut", op.name, dim)
+    system = R.SYSTEMS[dim][r.randrange(len(R.SYSTEMS[dim]))]
+    for rep in range(2):
+        d1 = W.make_draw(op, dim, r, core=True, mp=False, momentum=op.momentum_only or rep == 0)
+        d2 = W.make_draw(op, dim, r, core=True, mp=False, momentum=d1.momentum)
+        try:
+            self_l, a1 = W.instantiate(d1, system, None, "zxz" if "order" in op.args else None)
+            _, a2 = W.instantiate(d2, system, None, "zxz" if "order" in op.args else None)
+            self_l.f64()
+        except R.NotRepresentable:
+            continue
+        gi = next(j for j, k in enumerate(op.args) if k in kinds)
+        for backend in ("object", "numpy"):
+            if op.args[gi].startswith("mat"):
+                v = E.mat_obj(self_l) if backend == "object" else B.mk_numpy_cls(self_l.system, [self_l.f64()[0]] * 3, self_l.momentum)
+                shared = {k: float(x) for k, x in a1[gi].items()}
+                new = {k: float(x) for k, x in a2[gi].items()}
+                mutate = lambda: [shared.__setitem__(k, new[k]) for k in new]  # noqa: E731
+                fresh = dict(new)
+            else:
+                if backend == "object":
+                    continue  # plain numbers are immutable
+                v = B.mk_numpy_cls(self_l.system, [self_l.f64()[0]] * 3, self_l.momentum)
+                f1, f2 = float(a1[gi]), float(a2[gi])
+                shared = numpy.array([f1, f1 * 0.5 if op.args[gi] != "gamma" else 1 + (f1 - 1) * 0.5, f1])
+                newv = numpy.array([f2, f2 * 0.5 if op.args[gi] != "gamma" else 1 + (f2 - 1) * 0.5, f2])
+                mutate = lambda: shared.__setitem__(slice(None), newv)  # noqa: E731
+                fresh = newv.copy()
+            others = [E._conv_scalar(x, float) for x in a1]
+            res.evaluations += 1
+            try:
+                args_shared = list(others)
+                args_shared[gi] = shared
+                first = E.canon(op, op.call(v, *args_shared)) if backend == "object" else op.call(v, *args_shared)
+                mutate()
+                second = op.call(v, *args_shared)
+                args_fresh = list(others)
+                args_fresh[gi] = fresh
+                want = op.call(v, *args_fresh)
+            except Exception as e:
+                res.count("mutated_argument_call_raised:" + type(e).__name__)
+                continue
+            if backend == "object":
+                same = _bits_of(E.canon(op, second)) == _bits_of(E.canon(op, want))
+            else:
+                sa, sb = B.stored_columns(second), B.stored_columns(want)
+                same = sa[1] == sb[1] and [[B.bits(float(x)) for x in c] for c in sa[2]] == [[B.bits(float(x)) for x in c] for c in sb[2]]
+            if not same:
+                res.violation(f"C02/result-computed-from-an-earlier-content-of-a-mutated-argument op={op.name}",
+                              {"backend": backend, "system": R.sysname(system), "argument": op.args[gi],
+                               "history": "call(arg); arg changed in place; call(arg) again vs call(fresh object with the new content)"})
+            res.cell("mutated-argument", op.name, dim, backend)
+
+
 def run_shard(spec, tier, seed):
     res = Result()
     if spec.get("i") == 0:
@@ -213,6 +278,7 @@ def run_shard(spec, tier, seed):
     for opname, dim in spec["items"]:
         op = C.OPS[opname]
         odims = op.other_dims(dim) if op.other_dims else (None,)
+        _mutated_arguments(op, dim, seed, res)
         # ---- (a) 60-digit formula identity, every signature ---------------------------
         r = gen.rng(seed, "C02mp", opname, dim)
         for di in range(DRAWS_MP[tier]):
